@@ -17,6 +17,12 @@ add("C07", "exploration",
     "Trusted: the exact closed forms in mc/checks/c07.py. Comparison tolerance 1e-30 relative for Decimal results (35-digit context).",
     "DESIGN.md §5 C07")
 
+add("C18", "model_checking",
+    "exhaustive enumeration of trigger specifications x bar grids, each run through the real Actuator loop and compared with the denotation",
+    "Every trigger kind with every parameter placement of the alphabet (times before/on/between/after bars, empty/one-bar/straddling/overlapping ranges, periods x delays x immediate, all pairs of periods incl. coinciding ones, all ordered pairs of trigger kinds) is executed through Actuator.run on every bar grid (start 0/7, interval 1/2/5 min) and the set of bars on which the action ran, its kwargs, exactly-once per bar and retirement are compared with the denotation. Every explored trace is an implementation trace.",
+    "Trusted: the denotation function in mc/checks/c18.py; periods/delays are multiples of the bar interval; the bar grid is the one observed in the run (checked by C05).",
+    "DESIGN.md §5 C18")
+
 _PENDING = "check not built yet in this round (planned: bounded exhaustive exploration, see DESIGN.md §5); listed here until its check is registered"
 for _i in range(1, 21):
     _p = f"C{_i:02d}"
